@@ -18,9 +18,16 @@ GEN_FILES = ['K_cell', 'K_adp']
 
 
 def gen_cell(rng):
-    kind = rng.choice(['tri', 'mono', 'ortho', 'tetra', 'hex', 'cubic', 'rhomb', 'tri', 'mono'])
+    kind = rng.choice(['tri', 'mono', 'ortho', 'tetra', 'hex', 'cubic', 'rhomb', 'tri', 'mono', 'pseudo'])
     a, b, c = (round(rng.uniform(3, 40), rng.choice([2, 3, 4])) for _ in range(3))
-    if kind == 'tri':
+    if kind == 'pseudo':
+        # metrically almost orthogonal (or hexagonal): angles a few thousandths of a degree off 90 / 120
+        al, be, ga = (round(90 + rng.choice([-1, 1]) * rng.uniform(0.001, 0.009), 3) for _ in range(3))
+        if rng.random() < 0.3:
+            ga = round(120 + rng.choice([-1, 1]) * rng.uniform(0.001, 0.009), 3)
+        if rng.random() < 0.4:
+            al = 90
+    elif kind == 'tri':
         while True:
             al, be, ga = (round(rng.uniform(62, 118), 2) for _ in range(3))
             ca, cb, cg = (math.cos(math.radians(x)) for x in (al, be, ga))
@@ -194,6 +201,14 @@ def oracle(ctx, n_struct):
             bad('CELL.volume differs from sqrt(det G)', V, shx.cell.volume)
         if not close(shx.cell.o.m.det, V):
             bad('det of the orthogonalisation matrix differs from the cell volume', V, shx.cell.o.m.det)
+        # the metric tensor the cell object offers: G_ij = a_i . a_j
+        try:
+            mm = shx.cell.o.metric_matrix
+            rows = mm.values if hasattr(mm, 'values') else mm
+            if not all(close(rows[r][c_], G[r][c_], 1e-8, 1e-8) for r in range(3) for c_ in range(3)):
+                bad('OrthogonalMatrix.metric_matrix is not the metric tensor a_i . a_j', [list(r) for r in G], [list(r) for r in rows])
+        except AttributeError:
+            pass
         # the inverse the cell object offers (CELL.o.inversed, Shelxfile.orthogonal_matrix.inversed) maps Cartesian back to fractional coordinates
         for inv_name, inv in (('CELL.o.inversed', shx.cell.o.inversed), ('orthogonal_matrix.inversed', shx.orthogonal_matrix.inversed)):
             for v in ([1, 0, 0], [0, 1, 0], [0, 0, 1], [0.1234, -0.4321, 0.777]):
